@@ -52,6 +52,9 @@ def bounded(check, tier, seed):
     P = pool(rng, n)
     from bounded.derived import derived_values
     P = P + derived_values(seed + 4, n // 4)        # values at the end of chains of operations, partly rendered on the way
+    # every colour code of both planes, alone and together with a style (repr goes through the number -> name tables)
+    for k in range(8):
+        P += [FmtStr(Chunk("c", {"fg": 30 + k})), FmtStr(Chunk("c", {"bg": 40 + k})), FmtStr(Chunk("cd", {"fg": 30 + k, "bg": 47 - k, "bold": True}))]
     n_repr = len(P)
     # the same terminal string from texts of DIFFERENT LENGTHS: a run whose text holds escape sequences verbatim (what str + FmtStr,
     # copy_with_new_str(str(g)) and FmtStr(Chunk(str(g))) build) next to the value that displays the same through formatting
